@@ -3,31 +3,16 @@
 import json
 import os
 import subprocess
+import sys
 
 HERE = os.path.dirname(os.path.dirname(os.path.abspath(__file__)))
 ALL = ["C%02d" % i for i in range(1, 21)]
 
-CLAIMED = {
-    "C05": dict(
-        text="TLC exhaustively checks spec/TaskQueue (slice operations as the code performs them next to an ordinary list, "
-             "worker loop at gate granularity, public operations interleaved between pick and result application) for "
-             "NoEmptySlot/ListFaithful/HeadFirst/FailKeepsPosition; TLC-generated behaviours are replayed step by step on the real "
-             "queue.TaskQueue with Iterate/Length/GetFirst/GetLast/Get compared after every step; free-running concurrent runs are "
-             "recorded under the queue lock and validated by TLC against TaskQueueTrace.tla.",
-        note="Trusts TLC, the gate hooks (add-only, tag verif) and the Go runtime. Bounds: 3+2 ids, queue length <= 4-5, <= 12 public operations "
-             "per behaviour. 'Insert next to a missing id' is specified as 'no change' (container/list semantics); other policies without an "
-             "empty slot are reported as divergence, not violation.",
-        technique="TLA+ spec + TLC exhaustive check; behaviour replay into the real queue; TLC trace validation of recorded runs",
-        design="5/C05"),
-    "C17": dict(
-        text="TLC checks NoLateStart (invariant) on spec/TaskQueue with Stop enabled at every worker position and Go's select modelled as a "
-             "nondeterministic choice, and TerminatesAfterStop under weak fairness (thorough); behaviours with Stop at every gate are replayed "
-             "on the real worker goroutine (gate hooks), with ticker and cancelled context both ready at the wait-loop select.",
-        note="Queue level (task_queue.go). 'Picked' is linearised at the last context check before waitForTask returns. The select race is "
-             "probabilistic in Go: each behaviour exercises it once, hundreds of behaviours per run.",
-        technique="TLA+ spec + TLC exhaustive check incl. liveness; gate-scheduled schedule replay on the real worker goroutine",
-        design="5/C17"),
-}
+sys.path.insert(0, os.path.join(HERE, "lib"))
+sys.path.insert(0, os.path.join(HERE, "checks"))
+import registry  # noqa: E402
+
+CLAIMED = registry.MANIFEST
 
 NA_REASON = "check not built yet (work in progress; see DESIGN.md section 5 for the planned specification and binding)"
 
